@@ -48,6 +48,7 @@ REQUIRED_REACH = ['C01.end', 'C01.followed_by', 'C01.joined_start', 'C01.joined_
                   'C01.unrolled.link', 'C01.unrolled.end', 'C01.unrolled.group']
 EXHAUSTIVE = {'quick': False, 'thorough': False}
 JOB_OPTS = {'quick': dict(max_paths=6000, max_seconds=400), 'thorough': dict(max_paths=30000, max_seconds=1200)}
+TRUNCATION_OK = {'quick': 4, 'thorough': 20}   # sampled tier: this many random jobs may exhaust their path/time budget (listed as truncated in the evidence)
 
 ALPHA = [['W', 0, 'ALL'], ['W', 1, 'ALL'], ['W', 0, 'MW'], ['G', 'Rx180', [0]], ['G', 'CPhase', [0, 1]], ['M', 1, 'a']]
 ALPHA_W = [['W', 0, 'ALL'], ['W', 1, 'ALL'], ['W', 0, 'MW']]
